@@ -226,6 +226,9 @@ func (s *skel) stmt(depth int, st ast.Stmt) {
 		if d, ok := st.(*ast.DeclStmt); ok {
 			s.ops(depth, d)
 		}
+	case *ast.SendStmt:
+		s.ops(depth, x.Value)
+		s.emit(depth, "send "+s.src(x.Chan))
 	case *ast.SelectStmt:
 		s.emit(depth, "select")
 	case *ast.LabeledStmt:
